@@ -61,6 +61,19 @@ pub fn run(cx: &mut Ctx) {
     }
     cx.exhaustive_blocks.push(format!("group_by_key on all keyed inputs of length <= {maxlen} over 3 keys x seq + par 1..6 ({} inputs)", inputs.len()));
 
+    // large partitions (the planner's target is 64k rows per partition): one partition well above that,
+    // sequentially, with coarse partition counts, and inside a join side; oracle only
+    let sizes: &[usize] = if cx.tier == crate::ctx::Tier::Quick { &[70_001] } else { &[70_001, 140_003] };
+    for &n in sizes {
+        let src: Vec<V> = (0..n as i64).map(|i| V::pair(V::I((i * 7919) % 11), V::I(i))).collect();
+        let p = Prog { shape: Shape::KV, src: src.clone(), steps: vec![Step::Gbk] };
+        check_prog_oracle_only(cx, &p, &format!("rows={n} keys=11"), &[Mode::Seq, Mode::Par(1), Mode::Par(2), Mode::Par(64)]);
+        let q = Prog { shape: Shape::KV, src: src.clone(), steps: vec![Step::Gbk, Step::Glen] };
+        check_prog_oracle_only(cx, &q, &format!("rows={n} keys=11"), &[Mode::Seq, Mode::Par(2)]);
+        let j = Prog { shape: Shape::KV, src: vec![V::pair(V::I(3), V::I(0))], steps: vec![Step::Join(JoinKind::Inner, Box::new(q.clone()))] };
+        check_prog_oracle_only(cx, &j, &format!("join side rows={n} keys=11"), &[Mode::Seq, Mode::Par(2)]);
+    }
+
     // random: prefix (reorder-inert, so the known planner finding cannot interfere) ; gbk ; optional suffix
     let rounds = cx.budget(300, 6000);
     let mut done = 0;
